@@ -527,19 +527,24 @@ def shapes_stage():
                                           'behaviour': [f], 'signature': mode, 'variant': 'shapes', 'source': 'shapes'})
         # compile probes (C18): a user Drop next to derive(Trace) must be rejected with E0119 unless unsafe_no_drop is given
         probe = os.path.join(VERIF, 'gen', 'dropprobe')
-        expect = {'conflict_struct': False, 'conflict_tuple': False, 'conflict_unit': False, 'conflict_enum': False, 'conflict_generic': False,
-                  'nodrop_struct': True, 'nodrop_enum': True, 'plain_ok': True}
+        # name -> (must compile, expected error code, properties the probe belongs to)
+        expect = {'conflict_struct': (False, 'E0119', ['C18']), 'conflict_tuple': (False, 'E0119', ['C18']), 'conflict_unit': (False, 'E0119', ['C18']),
+                  'conflict_enum': (False, 'E0119', ['C18']), 'conflict_generic': (False, 'E0119', ['C18']),
+                  'nodrop_struct': (True, '', ['C18']), 'nodrop_enum': (True, '', ['C18']), 'plain_ok': (True, '', ['C18']),
+                  # the set of std types with a Trace impl is part of the contract (C17); tracing through shared ownership reclaims live values (C01)
+                  'shared_rc_not_trace': (False, 'E0277', ['C17', 'C01']), 'shared_arc_not_trace': (False, 'E0277', ['C17', 'C01'])}
         probes = {}
-        for name, should_compile in expect.items():
+        for name, (should_compile, code, props) in expect.items():
             r = _cargo(probe, ['check', '--offline', '--quiet', '--bin', name, '--message-format', 'short'])
             ok = r.returncode == 0
             codes = sorted(set(re.findall(r'E0\d+', r.stderr)))
             probes[name] = {'compiles': ok, 'codes': codes}
-            good = ok if should_compile else (not ok and codes == ['E0119'])
+            good = ok if should_compile else (not ok and codes == [code])
             res['runs'] += 1
             if not good:
-                res['violations'].append({'run': 0, 'prop': 'C18', 'msg': 'compile probe %s: compiles=%s errors=%s, expected %s' % (name, ok, codes, 'to compile' if should_compile else 'E0119'),
-                                          'n': 0, 'faulted': False, 'resur': False, 'behaviour': [name], 'signature': 'dropprobe', 'variant': 'shapes', 'source': 'shapes'})
+                for prop in props:
+                    res['violations'].append({'run': 0, 'prop': prop, 'msg': 'compile probe %s: compiles=%s errors=%s, expected %s' % (name, ok, codes, 'to compile' if should_compile else code),
+                                              'n': 0, 'faulted': False, 'resur': False, 'behaviour': [name], 'signature': 'dropprobe', 'variant': 'shapes', 'source': 'shapes'})
         res['harness']['probes'] = probes
         res['sample'] = [rows['SH'][0], rows['DF'][0]]
         res['nontrivial'] = sum(1 for r in rows['SH'] if r['visits']) + sum(1 for r in rows['DF'] if r['visits'])
